@@ -654,6 +654,11 @@ def run_cube(k, c, only=None):
             sub_cases = systematic_sub(axes, 10 if quick else None) + [gen_sub(axes) for _ in range(25 if quick else 250)]
         else:
             sub_cases = [parse_sub(e) for e in only if e.startswith('subvolume[')]
+        if len(zs) > 1 and zs[1] == zs[0]:
+            # a sample interval below 1 ms: the accessor's integer sample axis has increment 0; subvolume[...] by sample coordinate
+            # is not defined on it (outside the documented grammar: "steps being multiples of the increment")
+            sub_cases = []
+            R.count('cube_with_sub_millisecond_interval_no_subvolume')
         for t3 in sub_cases:
             want, expect_rej, sel = classify_sub(t3, axes)
             expr = 'subvolume[' + ', '.join(slstr(t) for t in t3) + ']'
@@ -710,6 +715,9 @@ def cubes():
            ((3, 2, 16), (50, -1, 8), 5, 0, 4000),          # 128 traces: every stored header array is exactly 512 bytes (footer stride boundary)
            ((-6, 3, 6), (-4, 4, 5), 12, -16, 4000),        # axes running through 0 (0 not first): lines -6..9, -4..12, samples -16..28 ms
            ((6, -3, 5), (8, -4, 3), 7, -8, 2000)]          # descending through 0: lines 6..-6, 8,4,0 ; samples -8..4 ms
+    # sample intervals that are not exactly representable in binary, with the sample counts for which a float arange would
+    # come out one element long (0.8 ms x 48, 0.4 ms x 24, 0.1 ms x 12): `samples`, len(depth_slice), trace lengths
+    cfg += [((1, 1, 4), (20, 1, 5), 48, 0, 800), ((3, 2, 3), (9, -1, 4), 24, 0, 400)] + ([] if quick else [((2, 1, 3), (5, 1, 3), 12, 0, 100), ((2, 1, 3), (5, 1, 3), 96, 0, 800)])
     nrand = 3 if quick else 24
     for _ in range(nrand):
         def axis():
